@@ -49,7 +49,7 @@ def to_actions(case, obs):
     submitted = set()
     for ev in events:
         if ev[2] == 'submit':
-            m = re.search(r"\['r(-?\d+)'", ev[6])
+            m = re.search(r"'r(-?\d+)'", ev[6])
             if not m or int(m.group(1)) not in byval:
                 return None
             submitted.add(byval[int(m.group(1))])
@@ -59,7 +59,7 @@ def to_actions(case, obs):
     for ev in events:
         kind, tok = ev[2], ev[3]
         if kind == 'submit':
-            r = byval[int(re.search(r"\['r(-?\d+)'", ev[6]).group(1))]
+            r = byval[int(re.search(r"'r(-?\d+)'", ev[6]).group(1))]
             if ev[4] != sum(1 for k in owner if k[0] == tok):
                 return None                       # task ids are allocated consecutively per executor
             inst[tok] = int(ev[5].rsplit('-', 1)[1])
@@ -136,6 +136,10 @@ class C16(core.Prop):
             # more requests in flight on one executor than any small id space: a straggler and 69 fast ones
             {'apps': [[0, 1]], 'mult': {'1': 3}, 'workers': 2, 'list_delay': 0.0,
              'requests': [mk(0, 1, delay=250)] + [mk(0, k) for k in range(2, 71)]},
+            # a request with a misnamed feature first, then well-formed ones with the same column types (one of them permuted)
+            {'apps': [[0, 1], [1, 2]], 'mult': {'1': 3, '2': 11}, 'workers': 2, 'list_delay': 0.0,
+             'requests': [{**mk(0, 1), 'missing': True, 'misnamed': True}, mk(0, 2, arrival=30), {**mk(1, 3, arrival=30), 'permuted': True}, mk(1, 4, arrival=40),
+                          mk(0, 5, arrival=40)]},
         ]
 
     def cases(self, rng, tier):
@@ -155,6 +159,8 @@ class C16(core.Prop):
                     'delay': rng.choice([0, 0, 0, 2, 5, 10, 30]),
                     'badenc': 0.08 <= fault < 0.16,
                     'missing': 0.16 <= fault < 0.24,
+                    'misnamed': 0.16 <= fault < 0.20,          # the missing feature is there under a wrong name (same dtypes)
+                    'permuted': fault >= 0.24 and rng.random() < 0.3,
                     'arrival': rng.choice([0, 0, 0, 1, 3, 10, 20]),
                 })
             out.append({'apps': apps, 'mult': mult, 'workers': rng.randint(1, 4), 'list_delay': rng.choice([0.0, 0.0, 0.03, 0.08]), 'requests': reqs})
